@@ -10,6 +10,7 @@ import subprocess, sys, re, os
 from pathlib import Path
 
 ws = sys.argv[1]
+EXCLUDE = [a.split("=",1)[1] for a in sys.argv[2:] if a.startswith("--exclude=")]
 W = Path(f"/tmp/vb-{ws}")
 def sh(*a, cwd=None, check=True, inp=None):
     r = subprocess.run(list(a), cwd=cwd, capture_output=True, text=True, input=inp)
@@ -51,7 +52,7 @@ for c in commits:
 # ---- 2. verif patch
 V = W / "verif"
 sh("git", "-C", str(V), "add", "-A")
-patch = sh("git", "-C", str(V), "diff", "--cached", "--binary", "HEAD", "--", ".", ":!evidence", ":!replays", ":!.scratch").stdout
+patch = sh("git", "-C", str(V), "diff", "--cached", "--binary", "HEAD", "--", ".", ":!evidence", ":!replays", ":!.scratch", ":!MANIFEST.json", *[":!" + e for e in EXCLUDE]).stdout
 sh("git", "-C", str(V), "reset", "-q")
 for old, new in mapping.items():
     if old != new:
